@@ -22,6 +22,8 @@ def run(ctx):
     engine_corr.campaign(ctx, {"C01"})
     import translate_prune
     translate_prune.check(ctx)       # pruning.py's literal elision translated to Gallina and linked to Cache/Prune.v by a theorem
+    import translate_nxutil
+    translate_nxutil.check(ctx)      # networkx_util.py (Kahn, all_ancestors, predecessor_count, is_source_node) compiled from the source and linked to Base/Topo.v
     prune_corr.run_prune(ctx)       # plan -> run graph: dependencies between surviving nodes (Cache/Prune.v)
 
 
